@@ -406,13 +406,20 @@ def _execute(record, root):
             c = member(cfg, 1)
             c["out"].update(print=cad["print"], xyz=cad["xyz"])
             c["out"]["h5"].update(data=cad["data"], forces=cad["forces"])
+            written = list(range(nm))
+            if nm > 1:
+                # only a subset of the batch is written out, and not in batch order: each file must still carry the
+                # energies of ITS molecule (the velocities and positions in the same file)
+                written = core.rng_for("c08molid", cfg["seed"]).choice([[nm - 1], list(range(nm))[::-1], [nm - 1, 0]])
+                c["out"]["molid"] = written
+                stats["probes"]["cadence_mix_molid_subset"] = 1
             d, data, reps = _run(c, root, var)
             stats["members"] += 1
             stats["probes"][f"variant_{var}"] = 1
             if data is None:
                 failures.append(core.fail("run-failed", f"variant {var} raised {reps[-1].get('exc')}", classify=cls))
                 continue
-            for m in range(nm):
+            for m in written:
                 nat = int((sp[m] > 0).sum())
                 ms = mass_all[m][:nat]
                 st0, x0, v0, _, Ek0, Ep0, T0 = _series(base, m)
